@@ -315,4 +315,628 @@ theorem C10_rule (a : AS) (r : RuleS) (k : List Nat) (hok : r.ok) (hk : NWS k) (
     simp only [hfirst, ↓reduceIte, bind, Except.bind, h1, h2, h3, pure, Except.pure, h4, HeadS.ht, HeadS.atoms]
     exact ⟨a4, rfl, hr4⟩
 
+
+/-! ### directives -/
+def kwMinimize : List Nat := [35, 109, 105, 110, 105, 109, 105, 122, 101]
+def kwProject : List Nat := [35, 112, 114, 111, 106, 101, 99, 116]
+def kwOutput : List Nat := [35, 111, 117, 116, 112, 117, 116]
+def kwExternal : List Nat := [35, 101, 120, 116, 101, 114, 110, 97, 108]
+def kwAssume : List Nat := [35, 97, 115, 115, 117, 109, 101]
+def kwHeuristic : List Nat := [35, 104, 101, 117, 114, 105, 115, 116, 105, 99]
+def kwEdge : List Nat := [35, 101, 100, 103, 101]
+
+theorem alt_absent (kw : List Nat) (p els : AspifIn.P Stmt) (a : AS) (h : kw.isPrefixOf a.rest = false) :
+    ∃ a', alt kw p els a = els a' ∧ a'.rest = a.rest := by
+  obtain ⟨a', h1, hr⟩ := tok_absent a kw h
+  exact ⟨a', by unfold alt; rw [h1], hr⟩
+
+theorem alt_present (kw : List Nat) (p els : AspifIn.P Stmt) (a : AS) (ws k : List Nat) (hr : a.rest = kw ++ (ws ++ k)) (hws : Filler ws) (hk : NWS k) :
+    ∃ a', alt kw p els a = p a' ∧ a'.rest = k := by
+  obtain ⟨a', h1, hr'⟩ := C10_tok a kw ws k false hr hws hk
+  exact ⟨a', by unfold alt; rw [h1], hr'⟩
+
+/-- an optional braced list: `{` filler, the items, `}` filler -/
+structure Braced (α : Type) where
+  wsOpen  : List Nat
+  items   : List α
+  wsClose : List Nat
+
+/-- `#assume{l1, …}.` / `#assume.` -/
+structure AssumeS where
+  ws0   : List Nat
+  br    : Option (Braced (LitItem × List Nat))
+  wsDot : List Nat
+
+def AssumeS.inner : Option (Braced (LitItem × List Nat)) → List Nat
+  | some b => 123 :: (b.wsOpen ++ (litsText b.items ++ (125 :: b.wsClose)))
+  | none => []
+def AssumeS.text (s : AssumeS) : List Nat := kwAssume ++ (s.ws0 ++ (AssumeS.inner s.br ++ (46 :: s.wsDot)))
+def AssumeS.vals : Option (Braced (LitItem × List Nat)) → List Int
+  | some b => b.items.map (fun p => p.1.val)
+  | none => []
+def AssumeS.okB : Option (Braced (LitItem × List Nat)) → Prop
+  | some b => Filler b.wsOpen ∧ Filler b.wsClose ∧ ∀ p ∈ b.items, p.1.ok ∧ Filler p.2
+  | none => True
+def AssumeS.ok (s : AssumeS) : Prop := Filler s.ws0 ∧ Filler s.wsDot ∧ AssumeS.okB s.br
+
+theorem dAssume_spec (a : AS) (br : Option (Braced (LitItem × List Nat))) (wsDot k : List Nat) (hb : AssumeS.okB br) (hwd : Filler wsDot) (hk : NWS k)
+    (hr : a.rest = AssumeS.inner br ++ (46 :: wsDot) ++ k) :
+    ∃ a', dAssume a = .ok (.call (.assume (AssumeS.vals br)), a') ∧ a'.rest = k := by
+  cases br with
+  | none =>
+    simp only [AssumeS.inner, List.nil_append, List.cons_append] at hr
+    obtain ⟨a1, h1, hr1⟩ := tok_absent a [123] (by rw [hr]; simp [List.isPrefixOf])
+    obtain ⟨a2, h2, hr2⟩ := C10_tok a1 [46] wsDot k true (by rw [hr1, hr]; rfl) hwd hk
+    unfold dAssume
+    simp only [bind, Except.bind, h1, Bool.false_eq_true, ↓reduceIte, h2, pure, Except.pure, AssumeS.vals]
+    exact ⟨a2, rfl, hr2⟩
+  | some b =>
+    obtain ⟨hw1, hw2, hit⟩ := hb
+    simp only [AssumeS.inner, List.cons_append, List.append_assoc] at hr
+    have hnw : NWS (litsText b.items ++ (125 :: (b.wsClose ++ (46 :: (wsDot ++ k))))) := by
+      by_cases hne : b.items = []
+      · rw [hne]; simp only [litsText, List.nil_append]; exact (sep_rbrace _).nws
+      · exact lower_nws (litsText_head b.items hne hit _)
+    obtain ⟨a1, h1, hr1⟩ := C10_tok a [123] b.wsOpen _ false (by rw [hr]; rfl) hw1 hnw
+    obtain ⟨a2, h2, hr2⟩ := lits_gen a1 b.items hit _ (sep_rbrace _) (by simp [List.isPrefixOf]) hr1
+    obtain ⟨a3, h3, hr3⟩ := C10_tok a2 [125] b.wsClose (46 :: (wsDot ++ k)) true (by rw [hr2]; rfl) hw2 (sep_dot _).nws
+    obtain ⟨a4, h4, hr4⟩ := C10_tok a3 [46] wsDot k true (by rw [hr3]; rfl) hwd hk
+    unfold dAssume
+    simp only [bind, Except.bind, h1, ↓reduceIte, h2, h3, h4, pure, Except.pure, AssumeS.vals]
+    exact ⟨a4, rfl, hr4⟩
+
+/-- `#project{a1, …}.` / `#project.` -/
+structure ProjectS where
+  ws0   : List Nat
+  br    : Option (Braced (AtomItem × Nat × List Nat))
+  wsDot : List Nat
+
+def ProjectS.inner : Option (Braced (AtomItem × Nat × List Nat)) → List Nat
+  | some b => 123 :: (b.wsOpen ++ (atomsText b.items ++ (125 :: b.wsClose)))
+  | none => []
+def ProjectS.text (s : ProjectS) : List Nat := kwProject ++ (s.ws0 ++ (ProjectS.inner s.br ++ (46 :: s.wsDot)))
+def ProjectS.vals : Option (Braced (AtomItem × Nat × List Nat)) → List Nat
+  | some b => b.items.map (fun p => p.1.n)
+  | none => []
+def ProjectS.okB : Option (Braced (AtomItem × Nat × List Nat)) → Prop
+  | some b => Filler b.wsOpen ∧ Filler b.wsClose ∧ ∀ p ∈ b.items, p.1.ok ∧ IsSep p.2.1 ∧ [44].contains p.2.1 = true ∧ Filler p.2.2
+  | none => True
+def ProjectS.ok (s : ProjectS) : Prop := Filler s.ws0 ∧ Filler s.wsDot ∧ ProjectS.okB s.br
+
+theorem dProject_spec (a : AS) (br : Option (Braced (AtomItem × Nat × List Nat))) (wsDot k : List Nat) (hb : ProjectS.okB br) (hwd : Filler wsDot) (hk : NWS k)
+    (hr : a.rest = ProjectS.inner br ++ (46 :: wsDot) ++ k) :
+    ∃ a', dProject a = .ok (.call (.project (ProjectS.vals br)), a') ∧ a'.rest = k := by
+  cases br with
+  | none =>
+    simp only [ProjectS.inner, List.nil_append, List.cons_append] at hr
+    obtain ⟨a1, h1, hr1⟩ := tok_absent a [123] (by rw [hr]; simp [List.isPrefixOf])
+    obtain ⟨a2, h2, hr2⟩ := C10_tok a1 [46] wsDot k true (by rw [hr1, hr]; rfl) hwd hk
+    unfold dProject
+    simp only [bind, Except.bind, h1, Bool.false_eq_true, ↓reduceIte, h2, pure, Except.pure, ProjectS.vals]
+    exact ⟨a2, rfl, hr2⟩
+  | some b =>
+    obtain ⟨hw1, hw2, hit⟩ := hb
+    simp only [ProjectS.inner, List.cons_append, List.append_assoc] at hr
+    have hnw : NWS (atomsText b.items ++ (125 :: (b.wsClose ++ (46 :: (wsDot ++ k))))) := by
+      by_cases hne : b.items = []
+      · rw [hne]; simp only [atomsText, List.nil_append]; exact (sep_rbrace _).nws
+      · exact lower_nws (atomsText_head b.items hne (fun p hp => (hit p hp).1) _)
+    obtain ⟨a1, h1, hr1⟩ := C10_tok a [123] b.wsOpen _ false (by rw [hr]; rfl) hw1 hnw
+    have hend : EndsList [44] (125 :: (b.wsClose ++ (46 :: (wsDot ++ k)))) := ⟨sep_rbrace _, 125, _, rfl, by decide, by decide⟩
+    obtain ⟨a2, h2, hr2⟩ := C10_atoms [44] a1 b.items hit _ hend hr1
+    obtain ⟨a3, h3, hr3⟩ := C10_tok a2 [125] b.wsClose (46 :: (wsDot ++ k)) true (by rw [hr2]; rfl) hw2 (sep_dot _).nws
+    obtain ⟨a4, h4, hr4⟩ := C10_tok a3 [46] wsDot k true (by rw [hr3]; rfl) hwd hk
+    unfold dProject
+    simp only [bind, Except.bind, h1, ↓reduceIte, h2, h3, h4, pure, Except.pure, ProjectS.vals]
+    exact ⟨a4, rfl, hr4⟩
+
+
+/-- `#external a.` / `#external a. [value]` -/
+structure ExtVal where
+  wsOpen : List Nat      -- after '['
+  v      : Nat           -- 0 free, 1 true, 2 false, 3 release
+  wsVal  : List Nat      -- after the keyword
+  wsClose : List Nat     -- after ']'
+
+structure ExternalS where
+  ws0   : List Nat
+  atom  : AtomItem
+  wsDot : List Nat
+  val   : Option ExtVal
+
+def valText (v : Nat) : List Nat :=
+  if v = 1 then [116, 114, 117, 101] else if v = 0 then [102, 114, 101, 101] else if v = 3 then [114, 101, 108, 101, 97, 115, 101] else [102, 97, 108, 115, 101]
+def ExternalS.valT : Option ExtVal → List Nat
+  | some e => 91 :: (e.wsOpen ++ (valText e.v ++ (e.wsVal ++ (93 :: e.wsClose))))
+  | none => []
+def ExternalS.text (s : ExternalS) : List Nat := kwExternal ++ (s.ws0 ++ (s.atom.text ++ (46 :: (s.wsDot ++ ExternalS.valT s.val))))
+def ExternalS.value : Option ExtVal → Nat
+  | some e => e.v
+  | none => 2
+def ExternalS.okV : Option ExtVal → Prop
+  | some e => Filler e.wsOpen ∧ Filler e.wsVal ∧ Filler e.wsClose ∧ e.v ≤ 3
+  | none => True
+def ExternalS.ok (s : ExternalS) : Prop := Filler s.ws0 ∧ s.atom.ok ∧ Filler s.wsDot ∧ ExternalS.okV s.val
+
+theorem sep_rbracket (t : List Nat) : Sep (93 :: t) := by intro c r e; cases e; decide
+
+theorem extValue_spec (a : AS) (v : Nat) (hv : v ≤ 3) (ws k : List Nat) (hws : Filler ws) (hk : NWS k) (hr : a.rest = valText v ++ (ws ++ k)) :
+    ∃ a', extValue a = .ok (v, a') ∧ a'.rest = k := by
+  have hv4 : v = 0 ∨ v = 1 ∨ v = 2 ∨ v = 3 := by omega
+  unfold extValue
+  rcases hv4 with h | h | h | h <;> subst h
+  · have hr : a.rest = [102, 114, 101, 101] ++ (ws ++ k) := hr
+    obtain ⟨a1, h1, hr1⟩ := tok_absent a [116, 114, 117, 101] (by rw [hr]; simp [List.isPrefixOf])
+    obtain ⟨a2, h2, hr2⟩ := C10_tok a1 [102, 114, 101, 101] ws k false (by rw [hr1, hr]) hws hk
+    simp only [bind, Except.bind, h1, Bool.false_eq_true, ↓reduceIte, h2, pure, Except.pure]
+    exact ⟨a2, rfl, hr2⟩
+  · have hr : a.rest = [116, 114, 117, 101] ++ (ws ++ k) := hr
+    obtain ⟨a1, h1, hr1⟩ := C10_tok a [116, 114, 117, 101] ws k false (by rw [hr]) hws hk
+    simp only [bind, Except.bind, h1, ↓reduceIte, pure, Except.pure]
+    exact ⟨a1, rfl, hr1⟩
+  · have hr : a.rest = [102, 97, 108, 115, 101] ++ (ws ++ k) := hr
+    obtain ⟨a1, h1, hr1⟩ := tok_absent a [116, 114, 117, 101] (by rw [hr]; simp [List.isPrefixOf])
+    obtain ⟨a2, h2, hr2⟩ := tok_absent a1 [102, 114, 101, 101] (by rw [hr1, hr]; simp [List.isPrefixOf])
+    obtain ⟨a3, h3, hr3⟩ := tok_absent a2 [114, 101, 108, 101, 97, 115, 101] (by rw [hr2, hr1, hr]; simp [List.isPrefixOf])
+    obtain ⟨a4, h4, hr4⟩ := C10_tok a3 [102, 97, 108, 115, 101] ws k true (by rw [hr3, hr2, hr1, hr]) hws hk
+    simp only [bind, Except.bind, h1, Bool.false_eq_true, ↓reduceIte, h2, h3, h4, pure, Except.pure]
+    exact ⟨a4, rfl, hr4⟩
+  · have hr : a.rest = [114, 101, 108, 101, 97, 115, 101] ++ (ws ++ k) := hr
+    obtain ⟨a1, h1, hr1⟩ := tok_absent a [116, 114, 117, 101] (by rw [hr]; simp [List.isPrefixOf])
+    obtain ⟨a2, h2, hr2⟩ := tok_absent a1 [102, 114, 101, 101] (by rw [hr1, hr]; simp [List.isPrefixOf])
+    obtain ⟨a3, h3, hr3⟩ := C10_tok a2 [114, 101, 108, 101, 97, 115, 101] ws k false (by rw [hr2, hr1, hr]) hws hk
+    simp only [bind, Except.bind, h1, Bool.false_eq_true, ↓reduceIte, h2, h3, pure, Except.pure]
+    exact ⟨a3, rfl, hr3⟩
+
+theorem dExternal_spec (a : AS) (atom : AtomItem) (wsDot : List Nat) (val : Option ExtVal) (k : List Nat)
+    (hat : atom.ok) (hwd : Filler wsDot) (hv : ExternalS.okV val) (hk : NWS k) (hk91 : ([91] : List Nat).isPrefixOf k = false)
+    (hr : a.rest = atom.text ++ (46 :: (wsDot ++ (ExternalS.valT val ++ k)))) :
+    ∃ a', dExternal a = .ok (.call (.external atom.n (ExternalS.value val)), a') ∧ a'.rest = k := by
+  obtain ⟨a1, h1, hr1⟩ := C10_atom_spellings a atom.n atom.sp atom.wsAfter (46 :: (wsDot ++ (ExternalS.valT val ++ k))) hat.1 (by rw [hr]; simp [AtomItem.text]) hat.2 (sep_dot _)
+  cases val with
+  | none =>
+    simp only [ExternalS.valT, List.nil_append] at hr1
+    obtain ⟨a2, h2, hr2⟩ := C10_tok a1 [46] wsDot k true (by rw [hr1]; rfl) hwd hk
+    obtain ⟨a3, h3, hr3⟩ := tok_absent a2 [91] (by rw [hr2]; exact hk91)
+    unfold dExternal
+    simp only [bind, Except.bind, h1, h2, h3, Bool.false_eq_true, ↓reduceIte, pure, Except.pure, ExternalS.value]
+    exact ⟨a3, rfl, by rw [hr3, hr2]⟩
+  | some e =>
+    obtain ⟨hw1, hw2, hw3, hv3⟩ := hv
+    simp only [ExternalS.valT, List.cons_append, List.append_assoc] at hr1
+    obtain ⟨a2, h2, hr2⟩ := C10_tok a1 [46] wsDot _ true (by rw [hr1]; rfl) hwd (by intro c r e'; cases e'; decide)
+    have hvnw : NWS (valText e.v ++ (e.wsVal ++ (93 :: (e.wsClose ++ k)))) := by
+      intro c r e'
+      unfold valText at e'
+      split at e'
+      · cases e'; decide
+      · split at e'
+        · cases e'; decide
+        · split at e' <;> (cases e'; decide)
+    obtain ⟨a3, h3, hr3⟩ := C10_tok a2 [91] e.wsOpen _ false (by rw [hr2]; rfl) hw1 hvnw
+    obtain ⟨a4, h4, hr4⟩ := extValue_spec a3 e.v hv3 e.wsVal (93 :: (e.wsClose ++ k)) hw2 (sep_rbracket _).nws hr3
+    obtain ⟨a5, h5, hr5⟩ := C10_tok a4 [93] e.wsClose k true (by rw [hr4]; rfl) hw3 hk
+    unfold dExternal
+    simp only [bind, Except.bind, h1, h2, h3, ↓reduceIte, h4, h5, pure, Except.pure, ExternalS.value]
+    exact ⟨a5, rfl, hr5⟩
+
+/-- `#edge(s,t).` / `#edge(s,t) : l1, ….` -/
+structure EdgeS where
+  ws0 : List Nat      -- after #edge
+  ws1 : List Nat      -- after '('
+  s   : Int
+  ws2 : List Nat      -- after s
+  ws3 : List Nat      -- after ','
+  t   : Int
+  ws4 : List Nat      -- after t
+  ws5 : List Nat      -- after ')'
+  cond : Option BodyS -- `:` filler, literals  (BodyS.wsArrow is the filler after ':')
+  wsDot : List Nat
+
+def condText : Option BodyS → List Nat
+  | some b => 58 :: (b.wsArrow ++ litsText b.items)
+  | none => []
+def EdgeS.text (e : EdgeS) : List Nat :=
+  kwEdge ++ (e.ws0 ++ (40 :: (e.ws1 ++ (printInt e.s ++ (e.ws2 ++ (44 :: (e.ws3 ++ (printInt e.t ++ (e.ws4 ++ (41 :: (e.ws5 ++ (condText e.cond ++ (46 :: e.wsDot)))))))))))))
+def EdgeS.ok (e : EdgeS) : Prop :=
+  Filler e.ws0 ∧ Filler e.ws1 ∧ Filler e.ws2 ∧ Filler e.ws3 ∧ Filler e.ws4 ∧ Filler e.ws5 ∧ Filler e.wsDot ∧ bodyOk e.cond ∧
+  (I32MIN ≤ e.s ∧ e.s ≤ I32MAX) ∧ (I32MIN ≤ e.t ∧ e.t ≤ I32MAX)
+
+theorem condition_spec (a : AS) (cond : Option BodyS) (k : List Nat) (hc : bodyOk cond) (hk : Sep k) (hk44 : ([44] : List Nat).isPrefixOf k = false)
+    (hk58 : ([58] : List Nat).isPrefixOf k = false) (hr : a.rest = condText cond ++ k) :
+    ∃ a', condition a = .ok (bodyVals cond, a') ∧ a'.rest = k := by
+  cases cond with
+  | none =>
+    simp only [condText, List.nil_append] at hr
+    obtain ⟨a1, h1, hr1⟩ := tok_absent a [58] (by rw [hr]; exact hk58)
+    unfold condition
+    simp only [h1, bodyVals]
+    exact ⟨a1, rfl, by rw [hr1, hr]⟩
+  | some b =>
+    obtain ⟨hwa, hit⟩ := hc
+    simp only [condText, List.cons_append, List.append_assoc] at hr
+    have hnw : NWS (litsText b.items ++ k) := by
+      by_cases hne : b.items = []
+      · rw [hne]; simp only [litsText, List.nil_append]; exact hk.nws
+      · exact lower_nws (litsText_head b.items hne hit _)
+    obtain ⟨a1, h1, hr1⟩ := C10_tok a [58] b.wsArrow _ false (by rw [hr]; rfl) hwa hnw
+    obtain ⟨a2, h2, hr2⟩ := lits_gen a1 b.items hit k hk hk44 hr1
+    unfold condition
+    simp only [h1, h2, bodyVals]
+    exact ⟨a2, rfl, hr2⟩
+
+theorem sep_comma (t : List Nat) : Sep (44 :: t) := by intro c r e; cases e; decide
+theorem sep_rparen (t : List Nat) : Sep (41 :: t) := by intro c r e; cases e; decide
+
+theorem printInt_nws (v : Int) (t : List Nat) : NWS (printInt v ++ t) := by
+  intro c r e
+  by_cases hneg : v < 0
+  · simp only [printInt, hneg, ↓reduceIte, List.cons_append] at e; cases e; decide
+  · simp only [printInt, hneg, ↓reduceIte] at e
+    obtain ⟨d, r', ed, hd⟩ := printNat_head_digit v.toNat
+    rw [ed] at e; cases e; simp [isDigit] at hd; simp [isWs]; omega
+
+theorem dEdge_spec (a : AS) (e : EdgeS) (k : List Nat) (hok : e.ok) (hk : NWS k)
+    (hr : a.rest = 40 :: (e.ws1 ++ (printInt e.s ++ (e.ws2 ++ (44 :: (e.ws3 ++ (printInt e.t ++ (e.ws4 ++ (41 :: (e.ws5 ++ (condText e.cond ++ (46 :: (e.wsDot ++ k))))))))))))) :
+    ∃ a', dEdge a = .ok (.call (.acycEdge e.s e.t (bodyVals e.cond)), a') ∧ a'.rest = k := by
+  obtain ⟨_, h1w, h2w, h3w, h4w, h5w, hwd, hc, hs, ht⟩ := hok
+  obtain ⟨a1, e1, hr1⟩ := C10_tok a [40] e.ws1 _ true (by rw [hr]; rfl) h1w (printInt_nws e.s _)
+  obtain ⟨a2, e2, hr2⟩ := C10_int a1 e.s [] e.ws2 _ (by rw [hr1]; rfl) (by intro c hc'; cases hc') h2w (sep_comma _) hs
+  obtain ⟨a3, e3, hr3⟩ := C10_tok a2 [44] e.ws3 _ true (by rw [hr2]; rfl) h3w (printInt_nws e.t _)
+  obtain ⟨a4, e4, hr4⟩ := C10_int a3 e.t [] e.ws4 _ (by rw [hr3]; rfl) (by intro c hc'; cases hc') h4w (sep_rparen _) ht
+  have hnw5 : NWS (condText e.cond ++ (46 :: (e.wsDot ++ k))) := by
+    cases e.cond with
+    | none => exact (sep_dot _).nws
+    | some b => exact (sep_colon _).nws
+  obtain ⟨a5, e5, hr5⟩ := C10_tok a4 [41] e.ws5 _ true (by rw [hr4]; rfl) h5w hnw5
+  obtain ⟨a6, e6, hr6⟩ := condition_spec a5 e.cond (46 :: (e.wsDot ++ k)) hc (sep_dot _) (by simp [List.isPrefixOf]) (by simp [List.isPrefixOf]) hr5
+  obtain ⟨a7, e7, hr7⟩ := C10_tok a6 [46] e.wsDot k true (by rw [hr6]; rfl) hwd hk
+  unfold dEdge
+  simp only [bind, Except.bind, e1, e2, e3, e4, e5, e6, e7, pure, Except.pure]
+  exact ⟨a7, rfl, hr7⟩
+
+
+/-! ### statements and programs -/
+inductive StmtS where
+  | rule (r : RuleS)
+  | assume (s : AssumeS)
+  | project (s : ProjectS)
+  | external (s : ExternalS)
+  | edge (s : EdgeS)
+
+def StmtS.text : StmtS → List Nat
+  | .rule r => r.text
+  | .assume s => s.text
+  | .project s => s.text
+  | .external s => s.text
+  | .edge s => s.text
+def StmtS.call : StmtS → Call
+  | .rule r => r.call
+  | .assume s => .assume (AssumeS.vals s.br)
+  | .project s => .project (ProjectS.vals s.br)
+  | .external s => .external s.atom.n (ExternalS.value s.val)
+  | .edge s => .acycEdge s.s s.t (bodyVals s.cond)
+def StmtS.ok : StmtS → Prop
+  | .rule r => r.ok
+  | .assume s => s.ok
+  | .project s => s.ok
+  | .external s => s.ok
+  | .edge s => s.ok
+
+/-- what a statement may be followed by: nothing, or something that starts like a statement -/
+def Follows (k : List Nat) : Prop := k = [] ∨ ∃ c t, k = c :: t ∧ (isLower c = true ∨ c = 123 ∨ c = 58 ∨ c = 35)
+
+theorem Follows.nws {k : List Nat} (h : Follows k) : NWS k := by
+  intro c r e
+  rcases h with h | ⟨c', t, e', hc⟩
+  · rw [h] at e; cases e
+  · rw [e'] at e; cases e
+    rcases hc with h | h | h | h
+    · simp [isLower] at h; simp [isWs]; omega
+    · subst h; decide
+    · subst h; decide
+    · subst h; decide
+
+theorem Follows.no91 {k : List Nat} (h : Follows k) : ([91] : List Nat).isPrefixOf k = false := by
+  rcases h with h | ⟨c', t, e', hc⟩
+  · rw [h]; rfl
+  · rw [e']; simp only [List.isPrefixOf, Bool.and_true]
+    rcases hc with h | h | h | h
+    · simp [isLower] at h; simp; omega
+    · subst h; decide
+    · subst h; decide
+    · subst h; decide
+
+theorem rule_head (r : RuleS) (hok : r.ok) (k : List Nat) : ∃ c t, r.text ++ k = c :: t ∧ (isLower c = true ∨ c = 123 ∨ c = 58) := by
+  obtain ⟨hh, _, _, hne⟩ := hok
+  cases hhd : r.head with
+  | choice w1 items w2 =>
+    have e : r.text ++ k = 123 :: (w1 ++ (atomsText items ++ (125 :: (w2 ++ (bodyText r.body ++ (46 :: (r.wsDot ++ k))))))) := by
+      simp [RuleS.text, hhd, HeadS.text]
+    exact ⟨123, _, e, Or.inr (Or.inl rfl)⟩
+  | disj items =>
+    rw [hhd] at hh
+    by_cases hi : items = []
+    · subst hi
+      rw [hhd] at hne
+      cases hbody : r.body with
+      | none => rw [hbody] at hne; exact absurd hne (by simp)
+      | some b =>
+        have e : r.text ++ k = 58 :: 45 :: (b.wsArrow ++ (litsText b.items ++ (46 :: (r.wsDot ++ k)))) := by
+          simp [RuleS.text, hhd, HeadS.text, atomsText, hbody, bodyText, BodyS.text]
+        exact ⟨58, _, e, Or.inr (Or.inr rfl)⟩
+    · obtain ⟨c, t, e, hc⟩ := atomsText_head items hi (fun p hp => (hh p hp).1) ((bodyText r.body ++ (46 :: r.wsDot)) ++ k)
+      exact ⟨c, t, by simp only [RuleS.text, hhd, HeadS.text, List.append_assoc] at e ⊢; exact e, Or.inl hc⟩
+
+theorem stmt_follows (st : StmtS) (hok : st.ok) (k : List Nat) : Follows (st.text ++ k) := by
+  right
+  cases st with
+  | rule r =>
+    obtain ⟨c, t, e, hc⟩ := rule_head r hok k
+    exact ⟨c, t, e, by rcases hc with h | h | h; exact Or.inl h; exact Or.inr (Or.inl h); exact Or.inr (Or.inr (Or.inl h))⟩
+  | assume s => exact ⟨35, _, rfl, Or.inr (Or.inr (Or.inr rfl))⟩
+  | project s => exact ⟨35, _, rfl, Or.inr (Or.inr (Or.inr rfl))⟩
+  | external s => exact ⟨35, _, rfl, Or.inr (Or.inr (Or.inr rfl))⟩
+  | edge s => exact ⟨35, _, rfl, Or.inr (Or.inr (Or.inr rfl))⟩
+
+/-- one round of the statement loop on a statement -/
+theorem stmtLoop_step (inc : Bool) (f : Nat) (a : AS) (acc : List Call) (st : StmtS) (k : List Nat) (hok : st.ok) (hk : Follows k)
+    (hr : a.rest = st.text ++ k) :
+    ∃ a', stmtLoop inc (f + 1) a acc = stmtLoop inc f a' (acc ++ [st.call]) ∧ a'.rest = k := by
+  have hfol := stmt_follows st hok k
+  have hs : a.skipWs.rest = st.text ++ k := skipWs_spec a [] _ (by simpa using hr) (by intro c hc; cases hc) hfol.nws
+  have hp1 : (peekWs a).1 = (st.text ++ k).headD 0 := by show a.skipWs.peek = _; unfold AS.peek; rw [hs]
+  have hp2 : (peekWs a).2 = a.skipWs := rfl
+  cases st with
+  | rule r =>
+    obtain ⟨c, t, e, hc⟩ := rule_head r hok k
+    obtain ⟨a', h, hr'⟩ := C10_rule a.skipWs r k hok hk.nws hs
+    have hc0 : ((r.text ++ k).headD 0 == 0) = false ∧ ((r.text ++ k).headD 0 == 46) = false ∧ ((r.text ++ k).headD 0 == 35) = false ∧ ((r.text ++ k).headD 0 == 37) = false := by
+      rw [e]
+      rcases hc with h | h | h
+      · simp [isLower] at h; simp; omega
+      · subst h; simp
+      · subst h; simp
+    simp only [StmtS.text] at hp1
+    simp only [stmtLoop, hp1, hp2, hc0.1, hc0.2.1, hc0.2.2.1, hc0.2.2.2, Bool.false_eq_true, ↓reduceIte, h, StmtS.call]
+    exact ⟨a', rfl, hr'⟩
+  | assume s =>
+    obtain ⟨hw0, hwd, hb⟩ := hok
+    have hr0 : a.skipWs.rest = kwAssume ++ (s.ws0 ++ (AssumeS.inner s.br ++ (46 :: s.wsDot) ++ k)) := by
+      rw [hs]; simp [StmtS.text, AssumeS.text]
+    obtain ⟨a1, e1, r1⟩ := alt_absent kwMinimize dMinimize _ a.skipWs (by rw [hr0]; simp [kwMinimize, kwAssume, List.isPrefixOf])
+    obtain ⟨a2, e2, r2⟩ := alt_absent kwProject dProject _ a1 (by rw [r1, hr0]; simp [kwProject, kwAssume, List.isPrefixOf])
+    obtain ⟨a3, e3, r3⟩ := alt_absent kwOutput dOutput _ a2 (by rw [r2, r1, hr0]; simp [kwOutput, kwAssume, List.isPrefixOf])
+    obtain ⟨a4, e4, r4⟩ := alt_absent kwExternal dExternal _ a3 (by rw [r3, r2, r1, hr0]; simp [kwExternal, kwAssume, List.isPrefixOf])
+    have hnw : NWS (AssumeS.inner s.br ++ (46 :: s.wsDot) ++ k) := by
+      cases s.br with
+      | none => exact (sep_dot _).nws
+      | some b => intro c r e; simp only [AssumeS.inner, List.cons_append] at e; cases e; decide
+    obtain ⟨a5, e5, r5⟩ := alt_present kwAssume dAssume _ a4 s.ws0 _ (by rw [r4, r3, r2, r1, hr0]) hw0 hnw
+    obtain ⟨a6, e6, r6⟩ := dAssume_spec a5 s.br s.wsDot k hb hwd hk.nws r5
+    have hdir : directive inc a.skipWs = .ok (.call (.assume (AssumeS.vals s.br)), a6) := by
+      unfold directive
+      rw [show ([35, 109, 105, 110, 105, 109, 105, 122, 101] : List Nat) = kwMinimize from rfl, e1,
+          show ([35, 112, 114, 111, 106, 101, 99, 116] : List Nat) = kwProject from rfl, e2,
+          show ([35, 111, 117, 116, 112, 117, 116] : List Nat) = kwOutput from rfl, e3,
+          show ([35, 101, 120, 116, 101, 114, 110, 97, 108] : List Nat) = kwExternal from rfl, e4,
+          show ([35, 97, 115, 115, 117, 109, 101] : List Nat) = kwAssume from rfl, e5, e6]
+    have hc : (st_head : Nat) → True := fun _ => trivial
+    have h35 : (kwAssume ++ (s.ws0 ++ (AssumeS.inner s.br ++ (46 :: s.wsDot))) ++ k).headD 0 = 35 := by simp [kwAssume]
+    simp only [StmtS.text, AssumeS.text] at hp1
+    rw [h35] at hp1
+    simp only [stmtLoop, hp1, hp2, hdir, StmtS.call]
+    exact ⟨a6, by simp, r6⟩
+  | project s =>
+    obtain ⟨hw0, hwd, hb⟩ := hok
+    have hr0 : a.skipWs.rest = kwProject ++ (s.ws0 ++ (ProjectS.inner s.br ++ (46 :: s.wsDot) ++ k)) := by
+      rw [hs]; simp [StmtS.text, ProjectS.text]
+    obtain ⟨a1, e1, r1⟩ := alt_absent kwMinimize dMinimize _ a.skipWs (by rw [hr0]; simp [kwMinimize, kwProject, List.isPrefixOf])
+    have hnw : NWS (ProjectS.inner s.br ++ (46 :: s.wsDot) ++ k) := by
+      cases s.br with
+      | none => exact (sep_dot _).nws
+      | some b => intro c r e; simp only [ProjectS.inner, List.cons_append] at e; cases e; decide
+    obtain ⟨a2, e2, r2⟩ := alt_present kwProject dProject _ a1 s.ws0 _ (by rw [r1, hr0]) hw0 hnw
+    obtain ⟨a3, e3, r3⟩ := dProject_spec a2 s.br s.wsDot k hb hwd hk.nws r2
+    have hdir : directive inc a.skipWs = .ok (.call (.project (ProjectS.vals s.br)), a3) := by
+      unfold directive
+      rw [show ([35, 109, 105, 110, 105, 109, 105, 122, 101] : List Nat) = kwMinimize from rfl, e1,
+          show ([35, 112, 114, 111, 106, 101, 99, 116] : List Nat) = kwProject from rfl, e2, e3]
+    have h35 : (kwProject ++ (s.ws0 ++ (ProjectS.inner s.br ++ (46 :: s.wsDot))) ++ k).headD 0 = 35 := by simp [kwProject]
+    simp only [StmtS.text, ProjectS.text] at hp1
+    rw [h35] at hp1
+    simp only [stmtLoop, hp1, hp2, hdir, StmtS.call]
+    exact ⟨a3, by simp, r3⟩
+  | external s =>
+    obtain ⟨hw0, hat, hwd, hv⟩ := hok
+    have hr0 : a.skipWs.rest = kwExternal ++ (s.ws0 ++ (s.atom.text ++ (46 :: (s.wsDot ++ (ExternalS.valT s.val ++ k))))) := by
+      rw [hs]; simp [StmtS.text, ExternalS.text]
+    obtain ⟨a1, e1, r1⟩ := alt_absent kwMinimize dMinimize _ a.skipWs (by rw [hr0]; simp [kwMinimize, kwExternal, List.isPrefixOf])
+    obtain ⟨a2, e2, r2⟩ := alt_absent kwProject dProject _ a1 (by rw [r1, hr0]; simp [kwProject, kwExternal, List.isPrefixOf])
+    obtain ⟨a3, e3, r3⟩ := alt_absent kwOutput dOutput _ a2 (by rw [r2, r1, hr0]; simp [kwOutput, kwExternal, List.isPrefixOf])
+    have hnw : NWS (s.atom.text ++ (46 :: (s.wsDot ++ (ExternalS.valT s.val ++ k)))) := lower_nws (atomItem_head s.atom hat _)
+    obtain ⟨a4, e4, r4⟩ := alt_present kwExternal dExternal _ a3 s.ws0 _ (by rw [r3, r2, r1, hr0]) hw0 hnw
+    obtain ⟨a5, e5, r5⟩ := dExternal_spec a4 s.atom s.wsDot s.val k hat hwd hv hk.nws hk.no91 r4
+    have hdir : directive inc a.skipWs = .ok (.call (.external s.atom.n (ExternalS.value s.val)), a5) := by
+      unfold directive
+      rw [show ([35, 109, 105, 110, 105, 109, 105, 122, 101] : List Nat) = kwMinimize from rfl, e1,
+          show ([35, 112, 114, 111, 106, 101, 99, 116] : List Nat) = kwProject from rfl, e2,
+          show ([35, 111, 117, 116, 112, 117, 116] : List Nat) = kwOutput from rfl, e3,
+          show ([35, 101, 120, 116, 101, 114, 110, 97, 108] : List Nat) = kwExternal from rfl, e4, e5]
+    have h35 : (kwExternal ++ (s.ws0 ++ (s.atom.text ++ (46 :: (s.wsDot ++ ExternalS.valT s.val)))) ++ k).headD 0 = 35 := by simp [kwExternal]
+    simp only [StmtS.text, ExternalS.text] at hp1
+    rw [h35] at hp1
+    simp only [stmtLoop, hp1, hp2, hdir, StmtS.call]
+    exact ⟨a5, by simp, r5⟩
+  | edge s =>
+    have hw0 := hok.1
+    have hr0 : a.skipWs.rest = kwEdge ++ (s.ws0 ++ (40 :: (s.ws1 ++ (printInt s.s ++ (s.ws2 ++ (44 :: (s.ws3 ++ (printInt s.t ++ (s.ws4 ++ (41 :: (s.ws5 ++ (condText s.cond ++ (46 :: (s.wsDot ++ k)))))))))))))) := by
+      rw [hs]; simp [StmtS.text, EdgeS.text]
+    obtain ⟨a1, e1, r1⟩ := alt_absent kwMinimize dMinimize _ a.skipWs (by rw [hr0]; simp [kwMinimize, kwEdge, List.isPrefixOf])
+    obtain ⟨a2, e2, r2⟩ := alt_absent kwProject dProject _ a1 (by rw [r1, hr0]; simp [kwProject, kwEdge, List.isPrefixOf])
+    obtain ⟨a3, e3, r3⟩ := alt_absent kwOutput dOutput _ a2 (by rw [r2, r1, hr0]; simp [kwOutput, kwEdge, List.isPrefixOf])
+    obtain ⟨a4, e4, r4⟩ := alt_absent kwExternal dExternal _ a3 (by rw [r3, r2, r1, hr0]; simp [kwExternal, kwEdge, List.isPrefixOf])
+    obtain ⟨a5, e5, r5⟩ := alt_absent kwAssume dAssume _ a4 (by rw [r4, r3, r2, r1, hr0]; simp [kwAssume, kwEdge, List.isPrefixOf])
+    obtain ⟨a6, e6, r6⟩ := alt_absent kwHeuristic dHeuristic _ a5 (by rw [r5, r4, r3, r2, r1, hr0]; simp [kwHeuristic, kwEdge, List.isPrefixOf])
+    obtain ⟨a7, e7, r7⟩ := alt_present kwEdge dEdge _ a6 s.ws0 _ (by rw [r6, r5, r4, r3, r2, r1, hr0]) hw0 (by intro c r e; cases e; decide)
+    obtain ⟨a8, e8, r8⟩ := dEdge_spec a7 s k hok hk.nws r7
+    have hdir : directive inc a.skipWs = .ok (.call (.acycEdge s.s s.t (bodyVals s.cond)), a8) := by
+      unfold directive
+      rw [show ([35, 109, 105, 110, 105, 109, 105, 122, 101] : List Nat) = kwMinimize from rfl, e1,
+          show ([35, 112, 114, 111, 106, 101, 99, 116] : List Nat) = kwProject from rfl, e2,
+          show ([35, 111, 117, 116, 112, 117, 116] : List Nat) = kwOutput from rfl, e3,
+          show ([35, 101, 120, 116, 101, 114, 110, 97, 108] : List Nat) = kwExternal from rfl, e4,
+          show ([35, 97, 115, 115, 117, 109, 101] : List Nat) = kwAssume from rfl, e5,
+          show ([35, 104, 101, 117, 114, 105, 115, 116, 105, 99] : List Nat) = kwHeuristic from rfl, e6,
+          show ([35, 101, 100, 103, 101] : List Nat) = kwEdge from rfl, e7, e8]
+    have h35 : (s.text ++ k).headD 0 = 35 := by simp [EdgeS.text, kwEdge]
+    simp only [StmtS.text] at hp1
+    rw [h35] at hp1
+    simp only [stmtLoop, hp1, hp2, hdir, StmtS.call]
+    exact ⟨a8, by simp, r8⟩
+
+
+def progText : List StmtS → List Nat
+  | [] => []
+  | st :: r => st.text ++ progText r
+
+theorem progText_follows (l : List StmtS) (hok : ∀ st ∈ l, st.ok) : Follows (progText l) := by
+  cases l with
+  | nil => exact Or.inl rfl
+  | cons st r => exact stmt_follows st (hok st (by simp)) (progText r)
+
+theorem skipWs_nil (a : AS) (h : a.rest = []) : a.skipWs.rest = [] :=
+  skipWs_spec a [] [] (by simpa using h) (by intro c hc; cases hc) (by intro c r e; cases e)
+
+theorem stmt_text_pos (st : StmtS) (hok : st.ok) : 1 ≤ st.text.length := by
+  rcases stmt_follows st hok [] with h | ⟨c, t, e, _⟩
+  · simp only [List.append_nil] at h
+    cases st <;> simp [StmtS.text, RuleS.text, AssumeS.text, ProjectS.text, ExternalS.text, EdgeS.text, kwAssume, kwProject, kwExternal, kwEdge] at h
+  · simp only [List.append_nil] at e; rw [e]; simp
+
+theorem progText_length (l : List StmtS) (hok : ∀ st ∈ l, st.ok) : l.length ≤ (progText l).length := by
+  induction l with
+  | nil => simp [progText]
+  | cons st r ih =>
+    have h1 := stmt_text_pos st (hok st (by simp))
+    have h2 := ih (fun s hs => hok s (by simp [hs]))
+    simp only [progText, List.length_append, List.length_cons]; omega
+
+/-- the statement loop over a whole step -/
+theorem stmtLoop_prog (inc : Bool) (stmts : List StmtS) (hok : ∀ st ∈ stmts, st.ok) (f : Nat) (hf : stmts.length < f) (a : AS) (acc : List Call)
+    (hr : a.rest = progText stmts) :
+    ∃ a', stmtLoop inc f a acc = (acc ++ stmts.map StmtS.call, .ok a') ∧ a'.rest = [] := by
+  induction stmts generalizing f a acc with
+  | nil =>
+    cases f with
+    | zero => simp at hf
+    | succ f =>
+      have hs := skipWs_nil a hr
+      have hp : (peekWs a).1 = 0 := by show a.skipWs.peek = 0; unfold AS.peek; rw [hs]; rfl
+      simp only [stmtLoop, hp, beq_self_eq_true, ↓reduceIte, List.map_nil, List.append_nil]
+      exact ⟨(peekWs a).2, rfl, hs⟩
+  | cons st r ih =>
+    cases f with
+    | zero => simp at hf
+    | succ f =>
+      obtain ⟨a1, h1, hr1⟩ := stmtLoop_step inc f a acc st (progText r) (hok st (by simp)) (progText_follows r (fun s hs => hok s (by simp [hs]))) hr
+      obtain ⟨a2, h2, hr2⟩ := ih (fun s hs => hok s (by simp [hs])) f (by simp at hf; omega) a1 (acc ++ [st.call]) hr1
+      exact ⟨a2, by rw [h1, h2]; simp, hr2⟩
+
+/-- **C10 (programs)**: a program (one step) of facts, integrity constraints, disjunctive and choice rules with normal bodies,
+    `#assume`, `#project`, `#external` (with or without a value) and `#edge` statements (with or without a condition), written
+    with ANY filler at every optional position, ANY spelling of every atom and ANY separator of the admissible ones in atom
+    lists, is read as exactly the corresponding calls, in order, between `initProgram(false)`, `beginStep` and `endStep`,
+    without an error. -/
+theorem C10_read_program (stmts : List StmtS) (hok : ∀ st ∈ stmts, st.ok) :
+    TextIn.read (progText stmts) = { calls := [.initProgram false, .beginStep] ++ stmts.map StmtS.call ++ [.endStep], err := none } := by
+  have hfol := progText_follows stmts hok
+  have hinit : (AS.init (progText stmts)).rest = progText stmts := rfl
+  have hs : (AS.init (progText stmts)).skipWs.rest = progText stmts := skipWs_spec _ [] _ (by simpa using hinit) (by intro c hc; cases hc) hfol.nws
+  -- the first character is one the text reader accepts, and is no comment
+  have hfirst : (((AS.init (progText stmts)).skipWs.peek == 0 || isLower (AS.init (progText stmts)).skipWs.peek ||
+      [46, 35, 37, 123, 58].contains (AS.init (progText stmts)).skipWs.peek) = true) ∧ ((AS.init (progText stmts)).skipWs.peek == 37) = false := by
+    unfold AS.peek; rw [hs]
+    rcases hfol with h | ⟨c, t, e, hc⟩
+    · rw [h]; simp
+    · rw [e]
+      rcases hc with h | h | h | h
+      · simp [isLower] at h; simp [isLower, h]; omega
+      · subst h; simp
+      · subst h; simp
+      · subst h; simp
+  -- `#incremental` is not there
+  have hninc : ([35, 105, 110, 99, 114, 101, 109, 101, 110, 116, 97, 108] : List Nat).isPrefixOf (progText stmts) = false := by
+    cases stmts with
+    | nil => rfl
+    | cons st r =>
+      cases st with
+      | rule r0 =>
+        obtain ⟨c, t, e, hc⟩ := rule_head r0 (hok (StmtS.rule r0) (by simp)) (progText r)
+        simp only [progText, StmtS.text]; rw [e]
+        rcases hc with h | h | h
+        · simp [isLower] at h; simp [List.isPrefixOf]; omega
+        · subst h; simp [List.isPrefixOf]
+        · subst h; simp [List.isPrefixOf]
+      | assume s => simp [progText, StmtS.text, AssumeS.text, kwAssume, List.isPrefixOf]
+      | project s => simp [progText, StmtS.text, ProjectS.text, kwProject, List.isPrefixOf]
+      | external s => simp [progText, StmtS.text, ExternalS.text, kwExternal, List.isPrefixOf]
+      | edge s => simp [progText, StmtS.text, EdgeS.text, kwEdge, List.isPrefixOf]
+  obtain ⟨a2, h2, hr2⟩ := tok_absent (AS.init (progText stmts)).skipWs [35, 105, 110, 99, 114, 101, 109, 101, 110, 116, 97, 108] (by rw [hs]; exact hninc)
+  have hatt : attach (AS.init (progText stmts)) = some (.ok (false, a2)) := by
+    unfold attach
+    have hsc : ∀ f, skipComments f (peekWs (AS.init (progText stmts))).2 = (AS.init (progText stmts)).skipWs := by
+      intro f; cases f with
+      | zero => rfl
+      | succ f => show skipComments (f + 1) (AS.init (progText stmts)).skipWs = _; simp only [skipComments, hfirst.2, Bool.false_eq_true, ↓reduceIte]
+    show (if ((AS.init (progText stmts)).skipWs.peek == 0 || isLower (AS.init (progText stmts)).skipWs.peek ||
+        [46, 35, 37, 123, 58].contains (AS.init (progText stmts)).skipWs.peek) = true then _ else none) = _
+    rw [if_pos hfirst.1]
+    simp only [hsc, h2]
+  obtain ⟨a3, h3, hr3⟩ := stmtLoop_prog false stmts hok (a2.rest.length + 1) (by
+    rw [hr2, hs]; have := progText_length stmts hok; omega) a2 [] (by rw [hr2, hs])
+  have hmore : AspifIn.more a3 = (false, a3.skipWs) := by
+    unfold AspifIn.more
+    have := skipWs_nil a3 hr3
+    simp only [AS.peek, this]; rfl
+  unfold TextIn.read
+  simp only [hatt, stepsLoop, h3, hmore, Bool.false_eq_true, Bool.false_and, ↓reduceIte, List.nil_append, List.append_assoc, List.cons_append]
+
+end PotasscoVerif.C10
+
+namespace PotasscoVerif.C10
+/-! non-vacuity: `a ;b :- not x_3.`␤`{c}.`␤`#external d. [true]`␤`#edge(-1,2) : a.` — every statement kind, with fillers -/
+instance (ws : List Nat) : Decidable (Filler ws) := by unfold Filler; infer_instance
+instance (s : Nat) : Decidable (IsSep s) := by unfold IsSep; infer_instance
+
+def exProg : List StmtS :=
+  [ .rule { head := .disj [(⟨1, .letter, [32]⟩, 59, []), (⟨2, .letter, [32]⟩, 59, [])],
+            body := some ⟨[32], [(⟨true, 3, .x_, [], []⟩, [])]⟩, wsDot := [10] },
+    .rule { head := .choice [] [(⟨3, .letter, []⟩, 59, [])] [], body := none, wsDot := [10] },
+    .external { ws0 := [32], atom := ⟨4, .letter, []⟩, wsDot := [32], val := some ⟨[], 1, [], [10]⟩ },
+    .edge { ws0 := [], ws1 := [], s := -1, ws2 := [], ws3 := [], t := 2, ws4 := [], ws5 := [32], cond := some ⟨[32], [(⟨false, 1, .letter, [], []⟩, [])]⟩, wsDot := [] } ]
+
+example : ∀ st ∈ exProg, st.ok := by
+  intro st hst
+  simp only [exProg, List.mem_cons, List.not_mem_nil, or_false] at hst
+  rcases hst with h | h | h | h <;> subst h
+  · refine ⟨?_, by decide, ⟨by decide, ?_⟩, trivial⟩
+    · intro p hp
+      simp only [List.mem_cons, List.not_mem_nil, or_false] at hp
+      rcases hp with h | h <;> subst h <;> exact ⟨⟨by simp [Spelling.ok], by decide⟩, Or.inl rfl, by decide, by decide⟩
+    · intro p hp
+      simp only [List.mem_singleton] at hp; subst hp
+      exact ⟨⟨by simp [Spelling.ok], by decide, by decide⟩, by decide⟩
+  · refine ⟨⟨by decide, by decide, ?_⟩, by decide, trivial, trivial⟩
+    intro p hp
+    simp only [List.mem_singleton] at hp; subst hp
+    exact ⟨⟨by simp [Spelling.ok], by decide⟩, Or.inl rfl, by decide, by decide⟩
+  · exact ⟨by decide, ⟨by simp [Spelling.ok], by decide⟩, by decide, by decide, by decide, by decide, by decide⟩
+  · refine ⟨by decide, by decide, by decide, by decide, by decide, by decide, by decide, ⟨by decide, ?_⟩, by decide, by decide⟩
+    intro p hp
+    simp only [List.mem_singleton] at hp; subst hp
+    exact ⟨⟨by simp [Spelling.ok], by decide, by decide⟩, by decide⟩
+
+example : (TextIn.read (progText exProg)).calls =
+    [.initProgram false, .beginStep, .rule 0 [1, 2] [-3], .rule 1 [3] [], .external 4 1, .acycEdge (-1) 2 [1], .endStep] := by decide +kernel
 end PotasscoVerif.C10
